@@ -37,6 +37,12 @@ func C05(r *chk.Run) {
 	r.Assume("the reference decoder/validator (harness/ref) implements website/docs/spec/index.md; it shares no code with go/mcap (zstd/lz4 modules and hash/crc32 are shared third-party/stdlib code)")
 	r.Assume("leniency: a non-zero footer summary_offset_start that designates an empty summary-offset section is accepted")
 	writerSpace(r, so, specOracle("C05"))
+	r.Rule("raw-record API: every file of {fixed multi-chunk workloads, generated tiny workloads} x 4 chunk modes x 5 flag sets x CRC is re-emitted through a second writer that gets its chunks unopened (AddSchema/AddChannel/WriteChunkWithIndexes + exported Statistics counters) and must again be spec-valid and read back identically")
+	pd := 2
+	if r.Thorough() {
+		pd = 3
+	}
+	passthroughPhase(r, "C05", pd)
 }
 
 // C06: emitted checksums cover exactly the bytes the spec says.
